@@ -109,6 +109,31 @@ def run(ctx):
         import shutil
         shutil.rmtree(d0, ignore_errors=True)
 
+    # 4b. a segment written by the real daemon binary (release, as shipped) in a private /run
+    daemon_file = None
+    from . import c13real, sandbox
+    if sandbox.available():
+        judged, _v, tls, tl_incon = c13real.run_timelines(ctx, [[[2.6, "answer"]]])
+        import glob
+        import json as _json
+        outs = sorted(glob.glob(os.path.join(ctx.tmp, "tl-*.json")))
+        outs = [o for o in outs if "script" not in o]
+        if outs:
+            j = _json.load(open(outs[-1]))
+            if j.get("final_segment"):
+                raw = bytes.fromhex(j["final_segment"])
+                d = protocol.decode(raw)
+                daemon_file = {"file_size": j["file_size"], "decoded": {k: (v.hex() if isinstance(v, bytes) else v) for k, v in d.items()}}
+                ok = (j["file_size"] == 72 and d["magic"] in readings.values() and d["size"] == 72 and d["version"] == 1 and d["generation"] % 2 == 0 and d["generation"] != 0
+                      and d["status"] == 1 and 139000 <= d["bound"] <= 141000 and d["max_drift"] == 1000 and d["reserved"] == 0 and d["as_of"][0] > 0 and 0 <= d["as_of"][1] < 10 ** 9
+                      and d["void_after"] == (d["as_of"][0] + 1000, 0))
+                if not ok:
+                    rp = os.path.join(ctx.replay_dir, "C17-daemon-file.json")
+                    with open(rp, "w") as fh:
+                        _json.dump(j, fh)
+                    viol.append({"sig": "daemon-file-layout", "detail": "segment written by the clockbound binary (chronyd stand-in reporting offset 10 us, delay 200 us, dispersion 30 us; default drift) decodes with PROTOCOL.md offsets to %s (file size %d)" % (daemon_file["decoded"], j["file_size"]), "replay": rp})
+        samples.append({"daemon_written_segment": daemon_file})
+
     # 5. thorough: the C program under valgrind (plain build)
     vg_info = None
     if not q:
@@ -146,6 +171,7 @@ def run(ctx):
         "shared_lib": info_so,
         "error_parity_cases": err_cases,
         "valgrind": vg_info,
+        "daemon_written_segment": daemon_file,
     }
     finish(ctx, coverage, viol, inconclusive, assumptions=["offsets in vlib/protocol.py were transcribed from docs/PROTOCOL.md by hand", "little-endian x86-64 host only"])
 
